@@ -763,6 +763,8 @@ theorem core_K (s : State) (now : Nat) (op : List String) (hJ : J s) (h : K none
             exact hclo
           have hw := witness_of_clo _ c.id hclo3
           split at hr
+          · simp at hr
+          split at hr
           · simp at hr; subst hr
             refine K_sub none (pump _ _ _).1 _ ?_ rfl (List.Sublist.refl _) (fun p hp => (List.mem_filter.mp hp).1)
             apply pump_K
@@ -784,6 +786,8 @@ theorem core_K (s : State) (now : Nat) (op : List String) (hJ : J s) (h : K none
         · split at hr
           · simp at hr; subst hr; exact h
           · rename_i hguard
+            split at hr
+            · simp at hr
             simp at hr; subst hr
             have hcid : c.id = natOf ctx := getCtx_id s _ c hc
             have hopen : c.closed = false := by
